@@ -76,6 +76,17 @@ CHECKS = {
             "stored blocks) is reported as KNOWN-FINDING; anything else is a VIOLATION.",
             "Clean restart only (no SQLite crash consistency); blocks are assembled without the nonce search because the store "
             "never looks at proof of work.", "DESIGN.md section 4, C08"),
+    'C09': (MC, "explicit-state search over delivery sequences to one real node with the real store; state = history replayed on "
+                "fresh objects; reference validator + store/buffer/pool/relay observation in lock-step",
+            "One real LocalPeer/ChainManager/ConnectedRemotePeer over fake sockets with the real DiskInterface and a file "
+            "BlockStore, a greeted deliverer and observer, a pending transaction in the pool. BFS to depth 3 (4) over ~43 event "
+            "kinds instantiated at each state: valid blocks on the head and on side forks (overtaking or not), duplicates, an "
+            "orphan, 33 blocks each broken in one way the validator distinguishes (by-itself, in-state, and the two kinds of "
+            "apply errors). After each delivery: entered state only if reference-valid with stored parent; accepted => committed "
+            "to the store (read through a second connection) and relayed exactly once iff new head; otherwise chain state, "
+            "store rows, write buffer and pool unchanged and nothing relayed; each sequence is closed by a fresh valid block "
+            "that must get stored.",
+            "Bulk-download deliveries (in_response_to != 0) are excluded by the property's wording.", "DESIGN.md section 4, C09"),
     'C11': (MC, "exhaustive enumeration of all 2-way and 3-way cuts of framed and corrupted streams against a reference framer",
             "116 (quick) / ~300 streams of 1-3 real messages and 30 corruption variants (each magic byte, over-limit and "
             "boundary lengths, short/long lengths, undecodable payloads, truncation); for each: whole, bytewise, every 2-way cut "
@@ -84,6 +95,27 @@ CHECKS = {
             "the reference framer's under every cut.",
             "Payload validity inside a frame is decided by the real message decoders (fragmentation independence, not the "
             "decoders, is under test here).", "DESIGN.md section 4, C11"),
+    'C12': (MC, "exhaustive enumeration of ledger states x pool subsets x clock offsets x intervening event, driving the real "
+                "MinerWatcher handlers in the role of the miner process",
+            "For every ledger state of a block-tree search (depth 2 / 3, forks, head on either branch), every compatible pool "
+            "subset of size <= 3 (fees 0, 3, 1000, 10^8; 1- and 2-input), clock - head time in {-30,-29,-1,0,1,120} and "
+            "{nothing, competing block arrives, pool gains a transaction} between work request and result: the found block "
+            "passes the node's add_block on the state served at request time and the reference validator, pays exactly subsidy "
+            "+ fees to the handed-out key, is later than its parent; afterwards the served chain state contains it (as head if "
+            "it extends the served head), the store has it, every greeted peer got it exactly once. The clock = head-30 corner "
+            "is a recorded KNOWN-FINDING.",
+            "The miner process is played by the harness (scrypt stand-in); thread interleavings between miner and network "
+            "thread are not explored.", "DESIGN.md section 4, C12"),
+    'C13': (MC, "explicit-state search over interleavings of submissions and head changes on one real node; reference pool and "
+                "ledger in lock-step",
+            "BFS to depth 4 (6), de-duplicated on (stored blocks, head, ordered pool): submissions (valid, conflicting, "
+            "overlapping 2-input, already mined, other-fork output, 8 malformed kinds, bad signature, overspend, resubmission) "
+            "through the network handler and through add_transaction_to_pool; head changes (extension including / conflicting "
+            "with / ignoring pooled transactions, side forks, reorganisations) through relayed blocks and through set_coinstate. "
+            "After every operation: every pooled transaction reference-valid at the head, pairwise disjoint references, "
+            "nothing inadmissible admitted, after a head change exactly the still-valid ones remain.",
+            "Fork choice itself is C04's subject: if the implementation's head differs from the reference the pool oracle is "
+            "suspended for that step.", "DESIGN.md section 4, C13"),
     'C14': (MC, "explicit-state search per ledger world over wallet states with the full (amount, fee) alphabet at every state; "
                 "reference arithmetic + node validators + reference validator",
             "Worlds: every assignment of <= 3 (4) unspent outputs of value 1/2/5 to two wallet keys, with/without a foreign "
